@@ -408,7 +408,17 @@ impl Sim {
             Event::Eof => eat(b"E"),
             Event::Out(st, l) => {
                 eat(&[b'O', *st]);
-                eat(l.as_bytes())
+                // `bench` and `d perft` measure themselves with the real clock (std::time::Instant is
+                // not behind the seam there): their wall-clock figures are not part of the execution
+                let toks: Vec<&str> = l.split_whitespace().collect();
+                if toks.len() == 4 && toks[1] == "nodes" && toks[3] == "nps" {
+                    eat(toks[0].as_bytes());
+                    eat(b" nodes");
+                } else if l.starts_with("time taken: ") || l.starts_with("nps: ") {
+                    eat(b"<wall clock>");
+                } else {
+                    eat(l.as_bytes())
+                }
             }
             Event::Poll(a, b, c) => {
                 eat(b"P");
